@@ -233,7 +233,10 @@ func Orchestrate(id, tier string) int {
 			exe = rb
 		}
 	}
-	timeout := 1200
+	timeout := 1200 // generous wall-clock watchdog: its firing is "inconclusive", never a verdict
+	if tier == "thorough" {
+		timeout = 10800
+	}
 	if p.ShardTimeout != nil {
 		timeout = p.ShardTimeout(tier)
 	}
